@@ -710,7 +710,7 @@ def check_enum(ctx, cr, e):
     for o in run["outs"]:
         conds = o["conds"]
         if len(conds) != 1 or "sw" not in conds[0]:
-            bad = "outcome with %d branch conditions" % len(conds)
+            und = "the conversion is not a single match on the argument (%d branch conditions): shape not understood" % len(conds)
             break
         sw = int_of(conds[0]["sw"])
         # the value matched on, as a function of the argument: every argument bit must take part, otherwise
@@ -1350,6 +1350,7 @@ def check_debug(ctx, cr, s):
     getters = {}
     fields_seen = []
     ds_chain = None
+    chain = []
     finish = None
     for c in calls:
         cal = c["callee"].replace("r#", "")
@@ -1365,11 +1366,12 @@ def check_debug(ctx, cr, s):
                 prob = "debug_struct is not the first formatting call"
                 break
             ds_chain = "c%d" % c["n"]
+            chain.append(ds_chain)
         elif cal.startswith(path + "::") and c["args"] and arg_is_param(c["args"][0], "p0") and len(c["args"]) == 1:
             getters["c%d" % c["n"]] = last
         elif cal.startswith("core::fmt::DebugStruct") and last == "field":
-            if ds_chain is None or not arg_is_param(c["args"][0], ds_chain):
-                prob = "field() is not chained on the DebugStruct of this impl"
+            if ds_chain is None or not any(arg_is_param(c["args"][0], x) for x in chain):
+                prob = "field() is not called on the DebugStruct of this impl"
                 break
             src = None
             for g in getters:
@@ -1377,9 +1379,10 @@ def check_debug(ctx, cr, s):
                     src = g
             fields_seen.append((c["args"][1].get("str") if isinstance(c["args"][1], dict) else None, getters.get(src)))
             ds_chain = "c%d" % c["n"]
+            chain.append(ds_chain)
         elif cal.startswith("core::fmt::DebugStruct") and last == "finish":
-            if ds_chain is None or not arg_is_param(c["args"][0], ds_chain):
-                prob = "finish() is not chained on the DebugStruct of this impl"
+            if ds_chain is None or not any(arg_is_param(c["args"][0], x) for x in chain):
+                prob = "finish() is not called on the DebugStruct of this impl"
                 break
             finish = "c%d" % c["n"]
         else:
@@ -1565,6 +1568,13 @@ def analyse_positive(ctx, want_props):
             if d["kind"] == "raw" and d.get("prop"):
                 # compiling twin of an E0599 witness
                 q = d.get("quarantined") or [x for x in diags if any(a.get("line") and d["line0"] <= a["line"] <= d["line1"] for a in x["at"])]
+                qnames = set()
+                for z in decls:
+                    if z.get("skip") and z is not d:
+                        qnames.add(z["name"])
+                        qnames.update(z.get("defines", []))
+                if q and all(any(("`%s`" % n) in x.get("message", "") for n in qnames) for x in q):
+                    continue  # it only fails because a declaration it uses was quarantined: that one carries the verdict
                 ctx.note_shape({d["prop"]}, cname + "::" + d["path"], ("twin", d["clause"]))
                 ctx.ob({d["prop"]}, "%s|%s|%s|twin_compiles" % (cname, d["path"], d["clause"]), not q,
                        "the compiling twin of a must-fail witness does not compile (%s): %s" % (d["clause"], q[0]["message"][:200] if q else ""),
@@ -1573,7 +1583,11 @@ def analyse_positive(ctx, want_props):
             if d["kind"] not in ("struct", "enum"):
                 continue
             mine = d.get("quarantined") or [x for x in diags if any(a.get("line") and d["line0"] <= a["line"] <= d["line1"] for a in x["at"])]
-            qnames = {q["name"] for q in decls if q.get("skip") and q is not d}
+            qnames = set()
+            for z in decls:
+                if z.get("skip") and z is not d:
+                    qnames.add(z["name"])
+                    qnames.update(z.get("defines", []))
             if mine and all(x.get("round", 1) >= 2 and any(("`%s`" % n) in x.get("message", "") for n in qnames) for x in mine):
                 # it only fails because a declaration it refers to was quarantined: that one carries the verdict
                 continue
